@@ -140,6 +140,8 @@ type Server struct {
 
 	// serviceSafePointLock is a lock for UpdateServiceGCSafePoint
 	serviceSafePointLock sync.Mutex
+	// gcSafePointLock makes the load-compare-save of UpdateGCSafePoint atomic
+	gcSafePointLock sync.Mutex
 
 	// Store as map[string]*grpc.ClientConn
 	clientConns sync.Map
